@@ -1,7 +1,7 @@
 // U8 environment (generated Kani crate): what `rate_limiter.rs` imports, modelled just far enough for the *unmodified*
 // text of `RateLimiter::{new, enqueue}` to compile and run under Kani.
 //   tokio::time::Instant  -> a Duration since an arbitrary epoch, `now()` reads the harness-controlled clock
-//   std HashMap           -> a two-slot association list with the same entry/or_insert/retain/len interface
+//   std HashMap           -> a two-slot association list with the same entry (Occupied / Vacant) / or_insert / retain / len interface
 //   crate::metrics        -> no-ops
 #![allow(dead_code, unused_variables, static_mut_refs)]
 pub use std::time::Duration;
@@ -28,15 +28,30 @@ impl std::ops::SubAssign<Duration> for Instant { fn sub_assign(&mut self, d: Dur
 
 pub const SLOTS: usize = 2;
 pub struct HashMap<K, V> { pub slots: [Option<(K, V)>; SLOTS] }
-pub struct Entry<'a, K, V> { map: &'a mut HashMap<K, V>, key: K }
+/// std's entry API: the slot of the key if present, else a free slot
+pub enum Entry<'a, K, V> { Occupied(OccupiedEntry<'a, K, V>), Vacant(VacantEntry<'a, K, V>) }
+pub struct OccupiedEntry<'a, K, V> { map: &'a mut HashMap<K, V>, idx: usize }
+pub struct VacantEntry<'a, K, V> { map: &'a mut HashMap<K, V>, key: K }
 impl<K: Eq + Copy, V> HashMap<K, V> {
     pub fn new() -> Self { HashMap { slots: [None, None] } }
-    pub fn entry(&mut self, key: K) -> Entry<'_, K, V> { Entry { map: self, key } }
+    pub fn entry(&mut self, key: K) -> Entry<'_, K, V> {
+        let mut found: Option<usize> = None;
+        let mut i = 0;
+        while i < SLOTS {
+            if let Some((k, _)) = &self.slots[i] { if *k == key { found = Some(i); } }
+            i += 1;
+        }
+        match found {
+            Some(idx) => Entry::Occupied(OccupiedEntry { map: self, idx }),
+            None => Entry::Vacant(VacantEntry { map: self, key }),
+        }
+    }
     pub fn len(&self) -> usize { self.slots.iter().filter(|s| s.is_some()).count() }
     pub fn get(&self, key: &K) -> Option<&V> {
         for s in self.slots.iter() { if let Some((k, v)) = s { if k == key { return Some(v); } } }
         None
     }
+    pub fn contains_key(&self, key: &K) -> bool { self.get(key).is_some() }
     pub fn retain<F: FnMut(&K, &mut V) -> bool>(&mut self, mut f: F) {
         for s in self.slots.iter_mut() {
             let keep = match s { Some((k, v)) => f(k, v), None => true };
@@ -44,29 +59,32 @@ impl<K: Eq + Copy, V> HashMap<K, V> {
         }
     }
 }
-impl<'a, K: Eq + Copy, V> Entry<'a, K, V> {
-    pub fn or_insert(self, default: V) -> &'a mut V {
-        let Entry { map, key } = self;
-        let mut found: Option<usize> = None;
+impl<'a, K: Eq + Copy, V> OccupiedEntry<'a, K, V> {
+    pub fn into_mut(self) -> &'a mut V { match &mut self.map.slots[self.idx] { Some((_, v)) => v, None => unreachable!() } }
+    pub fn get(&self) -> &V { match &self.map.slots[self.idx] { Some((_, v)) => v, None => unreachable!() } }
+    pub fn get_mut(&mut self) -> &mut V { match &mut self.map.slots[self.idx] { Some((_, v)) => v, None => unreachable!() } }
+}
+impl<'a, K: Eq + Copy, V> VacantEntry<'a, K, V> {
+    pub fn insert(self, value: V) -> &'a mut V {
+        let VacantEntry { map, key } = self;
         let mut free: Option<usize> = None;
         let mut i = 0;
         while i < SLOTS {
-            match &map.slots[i] {
-                Some((k, _)) => { if *k == key { found = Some(i); } }
-                None => { if free.is_none() { free = Some(i); } }
-            }
+            if map.slots[i].is_none() && free.is_none() { free = Some(i); }
             i += 1;
         }
-        let idx = match found {
-            Some(i) => i,
-            None => {
-                // the model map is full only if the harness made it so; harnesses keep one slot free
-                let i = free.expect("model map has a free slot");
-                map.slots[i] = Some((key, default));
-                i
-            }
-        };
+        // the model map is full only if the harness made it so; harnesses keep one slot free
+        let idx = free.expect("model map has a free slot");
+        map.slots[idx] = Some((key, value));
         match &mut map.slots[idx] { Some((_, v)) => v, None => unreachable!() }
+    }
+}
+impl<'a, K: Eq + Copy, V> Entry<'a, K, V> {
+    pub fn or_insert(self, default: V) -> &'a mut V {
+        match self { Entry::Occupied(e) => e.into_mut(), Entry::Vacant(e) => e.insert(default) }
+    }
+    pub fn or_insert_with<F: FnOnce() -> V>(self, f: F) -> &'a mut V {
+        match self { Entry::Occupied(e) => e.into_mut(), Entry::Vacant(e) => e.insert(f()) }
     }
 }
 pub mod metrics { pub mod rate_limiter_size { pub fn set(_v: u64) {} } }
